@@ -31,6 +31,9 @@ var excludedStructs = map[string]bool{"releaseEvent": true, "resyncObj": false}
 type TypedInfo struct {
 	Fields map[string]map[int]Mark // file -> offset of the SelectorExpr's end -> mark
 	Derefs map[string]map[int]Mark // file -> offset of the StarExpr -> mark
+	// MapRanges: file -> offset of a range statement over a map with string keys whose range expression is free of side
+	// effects (its iteration order is made deterministic)
+	MapRanges map[string]map[int]bool
 	Errors []string
 }
 
@@ -73,7 +76,7 @@ func goListExports(repo string, pkgs []string) (map[string]string, error) {
 
 // TypeCheck computes the marks for the given packages. extra overrides file contents (repo-relative paths).
 func TypeCheck(repo string, pkgs []string, extra map[string]string) (*TypedInfo, error) {
-	ti := &TypedInfo{Fields: map[string]map[int]Mark{}, Derefs: map[string]map[int]Mark{}}
+	ti := &TypedInfo{Fields: map[string]map[int]Mark{}, Derefs: map[string]map[int]Mark{}, MapRanges: map[string]map[int]bool{}}
 	exports, err := goListExports(repo, pkgs)
 	if err != nil {
 		return nil, err
@@ -203,6 +206,18 @@ func markFile(fset *token.FileSet, f *ast.File, rel string, info *types.Info, ti
 	}
 	ast.Inspect(f, func(n ast.Node) bool {
 		switch v := n.(type) {
+		case *ast.RangeStmt:
+			if tv, ok := info.Types[v.X]; ok && sideEffectFree(v.X) {
+				if m, ok := tv.Type.Underlying().(*types.Map); ok {
+					if b, ok := m.Key().Underlying().(*types.Basic); ok && b.Kind() == types.String {
+						if ti.MapRanges[rel] == nil {
+							ti.MapRanges[rel] = map[int]bool{}
+						}
+						ti.MapRanges[rel][fset.Position(v.Pos()).Offset] = true
+					}
+				}
+			}
+			return true
 		case *ast.SelectorExpr:
 			sel := info.Selections[v]
 			if sel == nil || sel.Kind() != types.FieldVal {
